@@ -113,6 +113,9 @@ structure Config (α : Type) where
   horz : Option (α × α)      -- (hmin, hmax) when `horzdiff_type == 'smagorinsky'`
   lifespan : Option α
   fuel : Nat := 10000
+  /-- `land_collision` is `reposition` or `coastal_diffusion`: the handler runs and is followed by
+  `clamp_to_seabed` (since the `fix:` commit 28c3e2b) -/
+  collisionClamp : Bool := false
 
 structure Env (α : Type) where
   depth : α → α → α
@@ -162,11 +165,13 @@ def horizontal (c : Config α) (e : Env α) (d : Draws α) (x y z : α) (alive :
     let (x', y', alive') := if e.ingrid r.x2 r.y2 then (r.x2, r.y2, alive) else (x, y, false)
     (x', y', fmin z (e.depth x' y'), alive')
 
-/-- `update_ibm` for one particle (order: reposition, advect, diffuse, horzdiff + clamp, kill_old) -/
+/-- `update_ibm` for one particle (order: reposition / coastal diffusion + clamp, advect, diffuse,
+horzdiff + clamp, kill_old) -/
 def update (c : Config α) (e : Env α) (d : Draws α) (p : Particle α) : Particle α :=
   let x := if d.stuck then reseed p.x d.repX else p.x
   let y := if d.stuck then reseed p.y d.repY else p.y
-  let z := vertical c e d x y p.z
+  let z0 := if c.collisionClamp then fmin p.z (e.depth x y) else p.z
+  let z := vertical c e d x y z0
   let (x, y, z, alive) := horizontal c e d x y z p.alive
   match c.lifespan with
   | none => ⟨x, y, z, p.age, alive⟩
